@@ -48,12 +48,59 @@ EARLY_STOP_AFTER = 24          # once this many violations are in, remaining sha
 _counter = None
 
 
+_HISTORY = []                  # per worker process: (function, shard) of everything this process has executed, in order
+HISTORY_REPR_CAP = 400_000
+
+
+def _attach_history(val):
+    """a violation found by a long-lived worker may depend on what that process executed before (state kept by the code under test
+    between inputs); the shards it had processed are recorded with the case so that the replay can re-execute them in order"""
+    if not (isinstance(val, dict) and val.get("violations")):
+        return
+    hist = [[name, sh] for name, sh in _HISTORY]
+    if len(repr(hist)) > HISTORY_REPR_CAP:
+        hist = hist[-1:]
+        if len(repr(hist)) > HISTORY_REPR_CAP:
+            return
+    for c in val["violations"]:
+        if isinstance(c, dict):
+            cfg = c.get("config")
+            if cfg is None:
+                cfg = c["config"] = {}
+            if isinstance(cfg, dict):
+                cfg["worker_history"] = hist
+
+
+def replay_history(case):
+    """re-execute, in this process and in order, the shards the finding worker had processed; returns an explanation if the last of them
+    again yields a violation of the same class (preferably on the same input), else None"""
+    import importlib
+    hist = (case.get("config") or {}).get("worker_history")
+    if not hist:
+        return None
+    last = None
+    for name, shard in hist:
+        modname, fnname = name.split(":")
+        fn = getattr(importlib.import_module(modname), fnname)
+        last = fn(shard)
+    found = [c for c in (last or {}).get("violations", []) if isinstance(c, dict) and c.get("klass") == case.get("klass")]
+    for c in found:
+        if repr(c.get("input")) == repr(case.get("input")):
+            return "reproduced only with its history (%d shard(s) executed before it in the same process): %s" % (len(hist) - 1, c.get("explanation"))
+    if found:
+        return ("re-executing the worker's history (%d shard(s)) in one process gives a violation of the same class on another input: %s"
+                % (len(hist), found[0].get("explanation")))
+    return None
+
+
 def _call(args):
     fn, shard = args
     try:
         if _counter is not None and _counter.value >= EARLY_STOP_AFTER:
             return ("ok", {"truncated": 1, "skipped_shards": 1})
+        _HISTORY.append((fn.__module__ + ":" + fn.__name__, shard))
         val = fn(shard)
+        _attach_history(val)
         if _counter is not None:
             nv = val.get("n_violations", len(val.get("violations", []))) if isinstance(val, dict) else 0
             if nv:
@@ -83,6 +130,7 @@ def run_shards(fn, shards, jobs=None):
     jobs = jobs or default_jobs()
     total = {}
     shards = list(shards)
+    del _HISTORY[:]
     if not shards:
         return total
     if jobs == 1 or len(shards) == 1:
@@ -109,3 +157,32 @@ def ranges(size, parts):
     parts = max(1, min(parts, size))
     step = -(-size // parts)
     return [(lo, min(size, lo + step)) for lo in range(0, size, step)]
+
+
+def in_forked_child(fn):
+    """run fn() in a forked child and return its (picklable) result: nothing the call leaves behind in module or class state
+    reaches the calling process"""
+    import pickle
+    r, w = os.pipe()
+    pid = os.fork()
+    if pid == 0:
+        try:
+            os.close(r)
+            try:
+                out = ("ok", fn())
+            except BaseException as e:                       # noqa: BLE001
+                out = ("exc", "%s: %s" % (type(e).__name__, e))
+            with os.fdopen(w, "wb") as f:
+                pickle.dump(out, f)
+        finally:
+            os._exit(0)
+    os.close(w)
+    with os.fdopen(r, "rb") as f:
+        data = f.read()
+    os.waitpid(pid, 0)
+    if not data:
+        raise HarnessError("forked child returned nothing")
+    st, val = pickle.loads(data)
+    if st != "ok":
+        raise HarnessError("forked child failed: %s" % val)
+    return val
